@@ -34,7 +34,7 @@ ANCHORS = [
     "acnportal.acnsim.interface:Interface.remaining_amp_periods",
     "acnportal.algorithms.base_algorithm:BaseAlgorithm.run",
 ]
-REQUIRED = ["interface_queried_at_registration", "invocations_judged", "invocations_without_event", "runs_judged", "mutating_twins", "active_sets_judged",
+REQUIRED = ["deep_copied_algorithm_and_simulator_runs", "interface_queried_at_registration", "invocations_judged", "invocations_without_event", "runs_judged", "mutating_twins", "active_sets_judged",
             "sessions_filtered_as_satisfied", "pilot_queries_judged", "infrastructure_judged", "regime:mr-None", "regime:mr-1",
             "regime:mr-k", "inner:scripted", "inner:uncontrolled", "inner:sorted"]
 BUDGET_S = {"quick": 240, "thorough": 3000}
@@ -52,7 +52,7 @@ def cases(seed, tier):
             d = gen.scenario(rng, sched="uncontrolled", noise_p=0.0)
         else:
             d = gen.scenario(rng, sched="sorted", kinds=("EVSE", "FR"), noise_p=0.0, est=None)
-        out.append({"desc": d})
+        out.append({"desc": d, "copy_pair": rng.choice(["dict", "tuple"]) if rng.random() < 0.15 else None})
     return out
 
 
@@ -181,11 +181,17 @@ def make_wrapper(inner, mutate, rec):
     return Rec()
 
 
-def _run(d, mutate):
+def _run(d, mutate, copy_pair=False):
     rec = []
     inner = build.build_scheduler(d)
     sch = make_wrapper(inner, mutate, rec)
     sim, evs = build.build_sim(d, scheduler=sch)
+    if copy_pair:
+        # an experiment record holding the algorithm and the simulator is deep-copied and the COPY is run: its scheduler must
+        # observe the copy's own state (the recording list is shared through the closure, so observations still arrive here)
+        import copy
+        holder = copy.deepcopy({"algorithm": sch, "simulator": sim} if copy_pair == "dict" else (sch, sim))
+        sim = holder["simulator"] if copy_pair == "dict" else holder[1]
     probe = SimProbe(sim, snapshots=False)
     probe.step_limit = simrun.last_event_ts(d) + 5
     probe.attach()
@@ -205,8 +211,10 @@ def _net_description(net):
 def run_case(case, obs):
     d = case["desc"]
     nd = d["network"]
-    sim, evs, probe, rec = _run(d, False)
-    wit = dict(scenario=d)
+    sim, evs, probe, rec = _run(d, False, copy_pair=case.get("copy_pair"))
+    if case.get("copy_pair"):
+        obs.ev("deep_copied_algorithm_and_simulator_runs")
+    wit = dict(scenario=d, copy_pair=case.get("copy_pair"))
     if probe.exception is not None:
         obs.violate("run_raised", f"{type(probe.exception).__name__}: {probe.exception}", **wit)
         return
